@@ -56,6 +56,7 @@ class Exec {
   void note(const std::string &s);
   void setup();
   void finish();
+  void forget_unspecified_window();
   void step(const core::Step &s);
   void connect_step(const core::Step &s);
   void send_msg(int ci, wire::Msg m, long deliver, std::vector<int> fds = {});
